@@ -11,10 +11,12 @@
 
    input  = (tree cells dev onpanic onfatal child (call ...))     tree/cells as in C05/Model.v (all leaves are IO cores)
      hook cfg = (0) nil | (1) WriteThenNoop | (2) WriteThenGoexit | (3) WriteThenPanic | (4) WriteThenFatal | (5 k) custom hook k
-     call  = (recv kind suffix level)
+     call  = (recv kind suffix level #msg (argshape via #text))
+             msg = the message the call's arguments amount to (what fmt / bytes.TrimSpace make of them: an oracle
+             the harness ships; may be empty); the last element says how the harness built the arguments (replay only)
      special input (table): the observation must be the method table
    observation = ((o ...) (flushed ...)):  o = ((ev ...) term), ev = (0 id) Write | (1 id) Sync | (2 h) hook,
-     term = () | (0) panic carrying the message | (1) exit status 1 | (2) Goexit | (3 k) custom hook k ran;
+     term = () | (0 #value) panic with that value | (1) exit status 1 | (2) Goexit | (3 k) custom hook k ran;
      flushed (child-process cases only) = lines found in the file behind each leaf's buffered sink *)
 From Coq Require Import List ZArith Bool Lia Arith.
 From Coq.Strings Require Import Byte.
@@ -109,6 +111,19 @@ Definition finish (lg : logger) (io : nat -> bool) (l : level) (e : ce) : list e
 (* one call through method family f *)
 Definition log_call (w : world) (lg : logger) (io : nat -> bool) (f : fam) (l : level) : list ev * option action :=
   if reaches_check w (lcore lg) f l then finish lg io l (logger_check w (lcore lg) l) else ([], None).
+(* The message.  No front end looks at its arguments or at the message they amount to before
+   Logger.check: sugar.go formats them (getMessage / getMessageln), zapgrpc formats them (sprintln),
+   the std-log bridge trims what the log package hands it (loggerWriter.Write: bytes.TrimSpace, then
+   logFunc unconditionally - also when nothing is left of a blank line) and every one of them then
+   calls Logger.check/Log with the result, whatever it is (empty included).  The entry carries it and
+   CheckWriteAction.OnWrite (WriteThenPanic, the default panic action) panics with it.
+   front_call is one call of method m at level l whose arguments amount to msg: the events, the
+   terminal action and the value the panic carries. *)
+Definition panic_value (a : option action) (msg : bytes) : option bytes :=
+  match a with Some APanic => Some msg | _ => None end.
+Definition front_call (w : world) (lg : logger) (io : nat -> bool) (m : method) (l : level) (msg : bytes)
+  : list ev * option action * option bytes :=
+  let r := log_call w lg io (fam_of m) l in (fst r, snd r, panic_value (snd r) msg).
 (* the same with the guards of the code before the zapgrpc fix *)
 Definition log_call_orig (w : world) (lg : logger) (io : nat -> bool) (f : fam) (l : level) : list ev * option action :=
   if forallb (guard_pass w (lcore lg) l) (guards_of_orig f) then finish lg io l (logger_check w (lcore lg) l) else ([], None).
@@ -141,16 +156,17 @@ Definition enc_ev (e : ev) : sx :=
   match e with EWrite i => SL [SZ 0; of_nat i] | ESync i => SL [SZ 1; of_nat i] | EHook h => SL [SZ 2; of_nat h] end.
 Definition dec_ev (s : sx) : ev :=
   match sx_z (sx_nth s 0) with 0 => EWrite (sx_n (sx_nth s 1)) | 1 => ESync (sx_n (sx_nth s 1)) | _ => EHook (sx_n (sx_nth s 1)) end.
-Definition enc_term (a : option action) : sx :=
+Definition enc_term (a : option action) (pv : option bytes) : sx :=
   match a with
   | None => SL []
-  | Some APanic => SL [SZ 0] | Some AExit => SL [SZ 1] | Some AGoexit => SL [SZ 2] | Some (ACustom k) => SL [SZ 3; of_nat k]
+  | Some APanic => SL [SZ 0; SB (match pv with Some b => b | None => [] end)]
+  | Some AExit => SL [SZ 1] | Some AGoexit => SL [SZ 2] | Some (ACustom k) => SL [SZ 3; of_nat k]
   end.
 
-Record call := { c_method : method; c_level : level }.
+Record call := { c_method : method; c_level : level; c_msg : bytes }.
 Definition dec_call (s : sx) : call :=
   {| c_method := {| m_recv := dec_recv (sx_z (sx_nth s 0)); m_kind := dec_kind (sx_z (sx_nth s 1)); m_suffix := dec_suffix (sx_z (sx_nth s 2)) |};
-     c_level := sx_z (sx_nth s 3) |}.
+     c_level := sx_z (sx_nth s 3); c_msg := sx_b (sx_nth s 4) |}.
 
 Definition all_io (id : nat) : bool := true.
 Definition leaf_ids (c : core) : list nat := map snd (paths c).
@@ -162,8 +178,8 @@ Definition dec_logger (ok : world -> core -> enabler -> bool) (w0 : world) (i : 
      on_panic := dec_hook (sx_nth i 3); on_fatal := dec_hook (sx_nth i 4) |}.
 
 Definition model_call (w : world) (lg : logger) (cl : call) : sx :=
-  let '(evs, a) := log_call w lg all_io (fam_of (c_method cl)) (c_level cl) in
-  SL [SL (map enc_ev evs); enc_term a].
+  let '(evs, a, pv) := front_call w lg all_io (c_method cl) (c_level cl) (c_msg cl) in
+  SL [SL (map enc_ev evs); enc_term a pv].
 
 Definition model (i : sx) : sx :=
   if is_table i then SL (map enc_method methods) else
@@ -202,7 +218,16 @@ Fixpoint sync_ok (hi : bool) (evs : list ev) : bool :=
   | ESync _ :: _ => false
   | EHook _ :: r => sync_ok hi r
   end.
-Definition action_eqb (a b : option action) : bool := sx_eqb (enc_term a) (enc_term b).
+(* the terminal observation a call at level l whose arguments amount to msg must end with: a panic
+   carries exactly the message (also an empty one) *)
+Definition spec_term (lg : logger) (l : level) (msg : bytes) : sx :=
+  match must_end lg l with
+  | None => SL []
+  | Some APanic => SL [SZ 0; SB msg]
+  | Some AExit => SL [SZ 1]
+  | Some AGoexit => SL [SZ 2]
+  | Some (ACustom k) => SL [SZ 3; of_nat k]
+  end.
 
 Definition spec_call (w : world) (lg : logger) (cl : call) (o : sx) : bool :=
   let evs := map dec_ev (sx_l (sx_nth o 0)) in
@@ -210,7 +235,7 @@ Definition spec_call (w : world) (lg : logger) (cl : call) (o : sx) : bool :=
   nat_list_eqb (writes_of evs) (delivered w (lcore lg) l) &&       (* handed to every accepting core, in order *)
   nat_list_eqb (ev_hooks_of evs) (hooks_due w (lcore lg) l) &&
   sync_ok (ErrorL <? l) evs &&                                     (* IO cores synced before control is lost *)
-  sx_eqb (sx_nth o 1) (enc_term (must_end lg l)).                  (* and then the terminal action, or none *)
+  sx_eqb (sx_nth o 1) (spec_term lg l (c_msg cl)).                 (* and then the terminal action, or none *)
 Fixpoint spec_calls (w : world) (lg : logger) (cls : list call) (os : list sx) : bool :=
   match cls, os with
   | [], [] => true
